@@ -801,6 +801,24 @@ func (c *cpu) interrupt(vec uint16) {
 	c.PC = uint16(c.rd0(vec)) | uint16(c.rd0(vec+1))<<8
 }
 
+// EnterIRQ performs the native-mode hardware interrupt sequence of a maskable interrupt request (the
+// caller checks that I is clear): K, PC and P are pushed, I set, D cleared, K zeroed and PC loaded from
+// $00FFEE. The handler's first instruction is a Step of its own.
+func EnterIRQ(st *State, m Mem) {
+	if st.E {
+		panic("ref: emulation mode not modelled")
+	}
+	c := &cpu{State: *st, m: m}
+	c.push(c.K)
+	c.push16(c.PC)
+	c.push(c.P)
+	c.P |= fI
+	c.P &^= fD
+	c.K = 0
+	c.PC = uint16(c.rd0(0xFFEE)) | uint16(c.rd0(0xFFEF))<<8
+	*st = c.State
+}
+
 // Step executes one instruction (one byte of a block move) on st/m.
 func Step(st *State, m Mem) Info {
 	if st.E {
